@@ -90,6 +90,33 @@ def run(rep, tier, seed):
                 sess.append(keys(rng.choice([b"P", b"P", b"2P"])))
         cs["sessions"].append(sess)
         typed.append(cs)
+    # the ring keeps what the kill took: kill (often the whole line, so that the yank goes into an EMPTY line), yank, then
+    # commands that edit the line where the yanked text is (typing in the middle, transposing, changing case, replacing a
+    # character), then yank again - it must still insert the most recent kill
+    for i in range(20 if tier == "quick" else 250):
+        mode = "emacs" if i % 2 == 0 else "vi-command"
+        cs = {"id": "c16r-%d" % i, "inputrc": ("set editing-mode vi\n" if mode.startswith("vi") else "") + case_options(rng, i, skip=("autocomplete",)),
+              "w": 80, "h": 24, "prompt": "> ", "setups": [], "sessions": []}
+        sess = []
+        for _ in range(30):
+            b = rng.choice(["abc", "ab cd", "héllo wörld", "x", "foo bar baz", "中文 ab"])
+            c = rng.choice([0, len(b), rng.randint(0, len(b))])
+            cs["setups"].append(setup(b, c, mode))
+            sess.append(SETUP_KEY)
+            if mode == "emacs":
+                sess.append(keys(rng.choice([b"\x15", b"\x01\x0b", b"\x0b", b"\x17", b"\x05\x15", b"\x1bd"])))
+                sess.append(keys(b"\x19"))
+                for _ in range(rng.randint(1, 4)):
+                    sess.append(keys(rng.choice([b"\x02", b"\x02", b"\x1bb", b"\x01", b"Z", b" ", b"\x14", b"\x1bu", b"\x1bl", b"\x1bc", b"\x06", b"\x1f"])))
+                sess.append(keys(rng.choice([b"\x19", b"\x05\x19", b"\x01\x19"])))
+            else:
+                sess.append(keys(rng.choice([b"0D", b"D", b"x", b"0d$", b"dw", b"0dw", b"dd"])))
+                sess.append(keys(rng.choice([b"P", b"p"])))
+                for _ in range(rng.randint(1, 4)):
+                    sess.append(keys(rng.choice([b"h", b"0", b"~", b"rZ", b"l", b"iQ\x1b", b"b", b"u"])))
+                sess.append(keys(rng.choice([b"P", b"p", b"0P"])))
+        cs["sessions"].append(sess)
+        typed.append(cs)
     log("C16: %d kill experiments (of %d) in %d cases + %d typed cases" % (len(exps), total, len(cases), len(typed)))
     rep.extra["exhaustive_up_to"] = {"buffer_length": maxlen if tier == "thorough" else None, "kill_commands": len(kills)}
 
